@@ -14,6 +14,7 @@ fn body(ctx: &Ctx) -> (Summary, Meta) {
                 f32_too: a.n() <= 7,
                 xscale: 1.0,
                 nearly_closed: false,
+                lane_mix: false,
             });
         }
     }
@@ -29,6 +30,7 @@ fn body(ctx: &Ctx) -> (Summary, Meta) {
                     f32_too: true,
                     xscale,
                     nearly_closed: false,
+                lane_mix: false,
                 });
             }
         }
